@@ -752,6 +752,79 @@ Proof. intros Hs. pose proof (erase_loop_lloop N k (2 * ss_size s + 2) s 0 0 0 H
   unfold ss_size in *. rewrite lloop_spec in P by lia. cbn [firstn skipn app] in P. inversion P as [[E1 E2 E3]].
   split; [reflexivity|split; [lia|split; [|assumption]]]. rewrite E1.
   clear. induction (ss_elems s) as [|x l IHl]; cbn [filter length]; [reflexivity|]. destruct (keep k x); cbn [negb length]; lia. Qed.
+
+(* ---- C05 for SmallSet: a SmallSet leaves its inline state only when it really holds more than N elements ------------
+   [Honest N s] = the set is inline, or it holds more than N elements.  insert, insert(range), merge (from an inline source:
+   the loop of smallset.hpp tests "element absent" BEFORE "inline container full") preserve it from any inline set: when the
+   resulting size is within N the result is still inline - and an inline SmallSet allocates nothing (its backing std::set /
+   FlatSet is empty; that an empty backing set owns no memory is the driver's allocator oracle). *)
+Definition Honest (N : nat) (s : sset) : Prop := ss_small s = true \/ N < ss_size s.
+
+Lemma set_of_length : forall l, noeq l -> length (set_of cmp l) = length l.
+Proof. intros l. induction l as [|v l IH] using rev_ind; intros Hn; [reflexivity|].
+  apply noeq_app in Hn. destruct Hn as (Hl & _ & Hv).
+  rewrite set_of_app. rewrite app_length. cbn [length].
+  assert (Hso : sorted (set_of cmp l)) by (rewrite set_of_fold; apply fold_ins_sorted; constructor).
+  rewrite (ins_size _ v Hso). rewrite (has_eqv_set_of _ v Hl).
+  assert (has_eqv l v = false) as ->.
+  { apply not_true_is_false. intros X. apply has_eqv_true in X. destruct X as (z & Hz & Ez).
+    specialize (Hv z Hz). unfold has_eqv in Hv. cbn [existsb] in Hv. apply orb_false_iff in Hv. destruct Hv as [Hv _].
+    rewrite eqv_sym in Hv. congruence. }
+  rewrite IH by assumption. lia. Qed.
+
+Lemma size_abs N s : SInv N s -> ss_size s = length (abs s).
+Proof. intros (A & B & C & D). unfold ss_size, ss_elems, abs. destruct (ss_small s); [symmetry; apply set_of_length; assumption|reflexivity]. Qed.
+
+Lemma honest_insert N s v : SInv N s -> Honest N s -> Honest N (fst (fst (ss_insert cmp N s v))).
+Proof. intros Hs Hh. pose proof (ss_insert_spec N s v Hs) as P.
+  pose proof (size_abs N s Hs) as Sz.
+  destruct (ss_insert cmp N s v) as [[s' i] b] eqn:E. destruct P as (P1 & P2 & _). cbn [fst].
+  pose proof (size_abs N s' P1) as Sz'.
+  assert (Hso : sorted (abs s)) by (apply (abs_sorted N); assumption).
+  pose proof (ins_size (abs s) v Hso) as L. rewrite <- P2 in L.
+  unfold Honest. destruct (ss_small s') eqn:Es'; [left; reflexivity|right].
+  destruct Hh as [Hsm|Hbig].
+  - (* was inline and left the inline state: it was exactly full and the element was absent *)
+    unfold ss_insert in E. rewrite Hsm in E.
+    destruct (find_small cmp (svec s) v =? length (svec s)) eqn:Ef.
+    + destruct (length (svec s) =? N) eqn:En.
+      * apply Nat.eqb_eq in En. apply Nat.eqb_eq in Ef.
+        destruct (find_small_spec (svec s) v) as (_ & F2 & _). specialize (F2 Ef).
+        destruct Hs as (_ & _ & C & _). assert (Ea : abs s = set_of cmp (svec s)) by (unfold abs; rewrite Hsm; reflexivity).
+        rewrite Ea in L. rewrite (has_eqv_set_of _ v C), F2 in L. rewrite (set_of_length _ C) in L. lia.
+      * inversion E; subst s'. discriminate Es'.
+    + inversion E; subst s'. congruence.
+  - destruct (has_eqv (abs s) v); lia.
+Qed.
+
+Lemma honest_insert_range N vs : forall s, SInv N s -> Honest N s -> Honest N (ss_insert_range cmp N s vs).
+Proof. induction vs as [|v vs IH]; intros s Hs Hh; cbn [ss_insert_range]; [assumption|].
+  apply IH; [apply SInv_insert; assumption|apply honest_insert; assumption]. Qed.
+
+Lemma honest_merge_small N : forall ov t, SInv N t -> Honest N t -> Honest N (fst (ss_merge_small cmp N t ov)).
+Proof. induction ov as [|y ov IH]; intros t Ht Hh; cbn [ss_merge_small]; [assumption|].
+  pose proof (honest_insert N t y Ht Hh) as H1. pose proof (SInv_insert N t y Ht) as H2.
+  destruct (ss_insert cmp N t y) as [[t1 i] b]. cbn [fst] in H1, H2. destruct b.
+  - apply IH; assumption.
+  - specialize (IH t Ht Hh). destruct (ss_merge_small cmp N t ov) as [t2 rest]. exact IH.
+Qed.
+
+(* the inline promise: from an inline set, when the result holds at most N elements it is still inline *)
+Theorem smallset_inline_promise N s : SInv N s -> ss_small s = true ->
+  (forall v, ss_size (fst (fst (ss_insert cmp N s v))) <= N -> ss_small (fst (fst (ss_insert cmp N s v))) = true) /\
+  (forall vs, ss_size (ss_insert_range cmp N s vs) <= N -> ss_small (ss_insert_range cmp N s vs) = true) /\
+  (forall o, ss_small o = true -> ss_size (fst (ss_merge cmp N s o)) <= N -> ss_small (fst (ss_merge cmp N s o)) = true).
+Proof. intros Hs Hsm. assert (Hh : Honest N s) by (left; assumption). split; [|split].
+  - intros v Hle. destruct (honest_insert N s v Hs Hh) as [X|X]; [assumption|lia].
+  - intros vs Hle. destruct (honest_insert_range N vs s Hs Hh) as [X|X]; [assumption|lia].
+  - intros o Ho Hle. unfold ss_merge in *. rewrite Ho in *.
+    pose proof (honest_merge_small N (svec o) s Hs Hh) as X. destruct (ss_merge_small cmp N s (svec o)) as [t' rest]. cbn [fst] in *.
+    destruct X as [X|X]; [assumption|lia].
+Qed.
+
+(* erasing from an inline set keeps it inline *)
+Lemma erase_keeps_inline s i j : ss_small s = true -> ss_small (ss_erase_at s i) = true /\ ss_small (ss_erase_range s i j) = true /\ ss_small (ss_clear s) = true.
+Proof. intros H. unfold ss_erase_at, ss_erase_range, ss_clear. rewrite H. repeat split. Qed.
 End SW.
 
 (* ================================================================================================================ *)
@@ -825,6 +898,11 @@ Lemma S_erase_loop N s k : SInv cmp N s ->
   let '(s', iters, erased) := erase_loop (KSmall N) (2 * ss_size s + 2) s 0 0 0 k in
   ss_elems s' = filter (keep k) (ss_elems s) /\ iters = ss_size s /\ erased + length (ss_elems s') = ss_size s /\ SInv cmp N s'.
 Proof. use erase_loop_terminates. Qed.
+Lemma S_inline_promise N s : SInv cmp N s -> ss_small s = true ->
+  (forall v, ss_size (fst (fst (ss_insert cmp N s v))) <= N -> ss_small (fst (fst (ss_insert cmp N s v))) = true) /\
+  (forall vs, ss_size (ss_insert_range cmp N s vs) <= N -> ss_small (ss_insert_range cmp N s vs) = true) /\
+  (forall o, ss_small o = true -> ss_size (fst (ss_merge cmp N s o)) <= N -> ss_small (fst (ss_merge cmp N s o)) = true).
+Proof. use smallset_inline_promise. Qed.
 End Statements.
 
 Lemma set_relocate_step cmp kind p a b s : sget p a = Some s -> sget p b = None -> a <> b ->
